@@ -47,7 +47,12 @@ func HarnessC07Component() {
 	data := map[string]any{"x": x, "y": y, "c": true, "vs": []any{x, y}}
 	var page, want string
 	fail := false
-	switch vChoice("page", 5) {
+	vfsWriteFile("templates/components/pair.tw", "{{ a }}/{{ t }}")
+	switch vChoice("page", 6) {
+	case 5: // argument values are evaluated at the place of use: t: x reads the page's x although an earlier key is also named x
+		page = "@component(\"~pair\", {a: y, t: a})"
+		data["a"] = x
+		want = y + "/" + x
 	case 0: // one use
 		s, w, f := c07Use(1, "x", x)
 		page, want, fail = "A"+s+"B", "A"+w+"B", f
